@@ -194,6 +194,31 @@ def canary(ctx, beh):
     return 3
 
 
+def race(ctx):
+    """spec/GateRace.tla: the mode a write is judged by is the mode it is applied in (READONLY yes queued ahead of writes)."""
+    mc = "---- MODULE MC_%s ----\nEXTENDS GateRace\n====\n"
+    r = ctx.tlc("gaterace", ["GateRace.tla"], mc % "gaterace", "SPECIFICATION Spec\n" +
+                cfg_consts(Writers='raw:{"w1", "w2", "w3"}', TestUnderLock=True) + "INVARIANT NoWriteInReadOnly\n", workers=2, timeout=300)
+    if not r["ok"]:
+        raise common.Infra("GateRace (as coded) violates %s" % r["violated"])
+    r2 = ctx.tlc("gaterace_dev", ["GateRace.tla"], mc % "gaterace_dev", "SPECIFICATION Spec\n" +
+                 cfg_consts(Writers='raw:{"w1", "w2"}', TestUnderLock=False) + "INVARIANT NoWriteInReadOnly\n", workers=2, timeout=300,
+                 expect_violation=True)
+    if r2["violated"] != "NoWriteInReadOnly":
+        raise common.Infra("GateRace: a refusal decided before queueing for the lock is not refuted (vacuous)")
+    rc, js, err = ctx.harness(["gates-race", "-rounds", str(ctx.pick(12, 60))], timeout=1200)
+    st = js["stats"]
+    ctx.log("gate race: TLC %d states (NoWriteInReadOnly; refuted when the refusal is decided before queueing for the lock); %d rounds on "
+            "real servers, %d writes went through their critical section after READONLY yes (%d before), %d mismatches"
+            % (r["distinct"], st["rounds"], st["writes_ordered_after_the_switch"], st["writes_ordered_before_the_switch"],
+               len(js.get("mismatches") or [])))
+    for m in (js.get("mismatches") or [])[:3]:
+        common.report(ctx, "c15-gaterace-r%d" % m["round"], "gate race (round %d): %s" % (m["round"], m["detail"]), {"kind": "gate-race", "round": m["round"]})
+    if st["writes_ordered_after_the_switch"] == 0:
+        raise common.Infra("no write was ordered after the READONLY switch in any round (vacuous)")
+    return r, st
+
+
 def run(ctx):
     if ctx.replay:
         return run_replay(ctx)
@@ -271,9 +296,13 @@ def run(ctx):
     for need in ("write-gate", "catchup-gate", "auth-gate", "refused", "connect:refused"):
         if by_rule.get(need, 0) == 0:
             raise common.Infra("no cell of the matrix exercised the clause '%s' (vacuous)" % need)
+    gr, gst = race(ctx)
+    states += gr["distinct"]
+    trans += gr["generated"]
     common.write_evidence(ctx, "model_checking", {
         "states": states,
         "transitions": trans,
+        "gate_race": gst,
         "traces_validated_against_impl": total["behaviours"],
         "samples": samples,
         "commands_from_source": ncmd,
@@ -310,6 +339,9 @@ def run(ctx):
 
 def run_replay(ctx):
     p = json.load(open(ctx.replay))
+    if p.get("kind") == "gate-race":
+        race(ctx)
+        return
     beh = os.path.join(ctx.scratch, "replay.ndjson")
     open(beh, "w").write(p["behaviour"] + "\n")
     ctx.seed = int(p.get("seed", ctx.seed))   # the fixture (keys, ids, markers, password) derives from the seed
